@@ -165,6 +165,6 @@ pub fn c12(tier: Tier) -> PropSpec {
             "shadow model / oracle as in C06, C07, C13, C01-C05",
         ],
         exhaustive: false,
-        parts: vec![Part::with_shrink("probes", tier.pick(400, 8000), 200, probe_case, c12_check)],
+        parts: vec![Part::with_shrink("probes", tier.pick(1500, 15000), 200, probe_case, c12_check)],
     }
 }
